@@ -17,9 +17,10 @@
       patterns with encoding/csv (Comma = '.'), whose multi-line records are not
       modelled; the single-line reader is the state machine [csv].
 
-    excludeT is reproduced as written: every [filter] assigns [err] again, so only
-    the error of the LAST executed filter is returned, and a filter that failed has
-    already replaced its list by nil.
+    excludeT follows the repaired code (notes/fixes/C19-exclude-bad-pattern.diff): the
+    first failing filter returns its error.  (Before the repair every [filter] assigned
+    [err] again, so only the error of the LAST executed filter was returned and a failed
+    filter had already replaced its list by nil: finding C19-exclude-bad-pattern-swallowed.)
 
     No proofs in this file. *)
 From Coq Require Import List NArith Bool Arith.
@@ -184,35 +185,34 @@ Fixpoint filter_cols (p : bytes) (l : list column) : eres (list column) * list s
     end
   end.
 
-(** what one [x, err = filter(...)] statement leaves behind *)
-Definition assigned {A} (r : eres (list A)) : list A * option err :=
-  match r with EOk l => (l, None) | EErr e => ([], Some e) end.
-
+(** [excludeT] (after fix C19-exclude-bad-pattern: the error of a filter is returned at once,
+    the slice is assigned only when the filter succeeded) *)
 Definition excludeT (link : bool * bool) (t : table) (pattern : bytes) : eres table :=
   let '(pc, exc) := excludeType typeC pattern in
-  let '(cols, hit, e1) :=
-    if exc then let '(r, hit) := filter_cols pc (t_cols t) in let '(l, e) := assigned r in (l, hit, e)
-    else (t_cols t, [], None) in
-  let '(pi, exi) := excludeType typeI pattern in
-  let '(idxs, e2) :=
-    if exi then assigned (filterM (fun i => if fst link && existsb (fun cn => idx_on cn i) hit then EOk true
-                                            else gmatch pi (i_name i)) (t_idx t))
-    else (t_idx t, e1) in
-  let '(pf, exf) := excludeType typeF pattern in
-  let '(fks, e3) :=
-    if exf then assigned (filterM (fun f => if snd link && existsb (fun cn => fk_on cn f) hit then EOk true
-                                            else gmatch pf (f_symbol f)) (t_fks t))
-    else (t_fks t, e2) in
-  (* typeTg: t.Triggers is empty; filter of an empty slice returns (empty, nil) *)
-  let '(_, exg) := excludeType [116;114;105;103;103;101;114] pattern in
-  let e4 := if exg then None else e3 in
-  let '(pk, exk) := excludeType typeK pattern in
-  let '(cks, e5) :=
-    if exk then assigned (filterM (fun k => gmatch pk (k_name k)) (t_checks t))
-    else (t_checks t, e4) in
-  match e5 with
-  | Some e => EErr e
-  | None => EOk (set_t_children t cols idxs fks cks)
+  let '(rc, hit) := if exc then filter_cols pc (t_cols t) else (EOk (t_cols t), []) in
+  match rc with
+  | EErr e => EErr e
+  | EOk cols =>
+    let '(pi, exi) := excludeType typeI pattern in
+    match (if exi then filterM (fun i => if fst link && existsb (fun cn => idx_on cn i) hit then EOk true
+                                         else gmatch pi (i_name i)) (t_idx t)
+           else EOk (t_idx t)) with
+    | EErr e => EErr e
+    | EOk idxs =>
+      let '(pf, exf) := excludeType typeF pattern in
+      match (if exf then filterM (fun f => if snd link && existsb (fun cn => fk_on cn f) hit then EOk true
+                                           else gmatch pf (f_symbol f)) (t_fks t)
+             else EOk (t_fks t)) with
+      | EErr e => EErr e
+      | EOk fks =>
+        (* typeTg: t.Triggers is empty; filter of an empty slice returns (empty, nil) *)
+        let '(pk, exk) := excludeType typeK pattern in
+        match (if exk then filterM (fun k => gmatch pk (k_name k)) (t_checks t) else EOk (t_checks t)) with
+        | EErr e => EErr e
+        | EOk cks => EOk (set_t_children t cols idxs fks cks)
+        end
+      end
+    end
   end.
 
 (** ** excludeS (tables only); [glob] = g[1:], one or two elements *)
